@@ -15,7 +15,7 @@ from hypothesis import strategies as st
 from vlib.runner import Clause
 from vlib import gen
 from vlib.tol import close, describe, maxdiff
-from vlib.digest import digest, digest_diff, state_diff, parameter_mutation
+from vlib.digest import digest, digest_diff, state_diff, parameter_mutation, public_diff
 
 from menpo.shape import TriMesh, ColouredTriMesh, TexturedTriMesh, PointCloud
 from menpo.image import Image
@@ -518,12 +518,12 @@ def c_mask(case, ctx):
         ctx.expect(ok, "mask.landmarks_not_carried", "")
     # ---- all-true => equal copy
     if all_true:
-        sd = state_diff(res, mesh)
+        sd = public_diff(res, mesh)
         ctx.expect(sd is None, "mask.all_true_not_equal_copy", lambda: sd)
     # ---- triangle mask == vertex mask of the triangles' vertices
     if tmask is not None:
         res2 = mesh.from_mask(np.array(vm, dtype=bool))
-        sd = state_diff(res, res2)
+        sd = public_diff(res, res2)
         ctx.expect(sd is None, "mask.tri_mask_vs_vertex_mask", lambda: sd)
 
 
